@@ -375,9 +375,35 @@ type runWorld struct {
 	requested  uint64 // constant mode: what the (harness's) rate function has asked for so far
 	res        *run.Result
 	reg        *prometheus.Registry
+	open       int // bodies executing now
+	// bodies still executing when Do returned (0: the run returned with all iterations complete)
+	openAtReturn int
 }
 
 var rw *runWorld
+
+// variations of a whole run, set around a call of wholeRun (see usersFirst / interrupted)
+var (
+	runUsersFirst bool          // config-file mode: a users stage of 300 ms before the constant stage
+	runCancelAt   time.Duration // > 0: the caller cancels then
+)
+
+// usersFirst: a config file whose first stage is a users stage (which waits for the pool's completion when
+// it ends) followed by a constant stage whose iterations are in flight when the plan ends. Setup's cleanup
+// takes 600 ms, so every iteration has finished when Do returns.
+func usersFirst(rate string, maxDur time.Duration, conc int, bodySleep time.Duration) vrt.Scenario {
+	runUsersFirst = true
+	defer func() { runUsersFirst = false }()
+	return wholeRun("file", rate, maxDur, conc, bodySleep, 0)
+}
+
+// interrupted: the caller cancels while iterations are in flight; they finish within the completion timeout
+// (and setup's cleanup takes 600 ms on top).
+func interrupted(mode, rate string, cancelAt time.Duration, conc int, bodySleep time.Duration) vrt.Scenario {
+	runCancelAt = cancelAt
+	defer func() { runCancelAt = 0 }()
+	return wholeRun(mode, rate, 5*time.Second, conc, bodySleep, 0)
+}
 
 // second: two runs are constructed on one metrics instance, an earlier one is
 // executed to its end, then the run under observation.
@@ -385,6 +411,13 @@ func wholeRun(mode, rate string, maxDur time.Duration, conc int, bodySleep time.
 	name := fmt.Sprintf("run/%s/rate=%s/maxdur=%s/c=%d/body=%s/limit=%d", mode, rate, maxDur, conc, bodySleep, limit)
 	if len(second) > 0 {
 		name += "/after-an-earlier-run-built-on-the-same-metrics"
+	}
+	usersFirst, cancelAt := runUsersFirst, runCancelAt
+	if usersFirst {
+		name += "/users-stage-first"
+	}
+	if cancelAt > 0 {
+		name += fmt.Sprintf("/caller-cancels-at-%s", cancelAt)
 	}
 	body := func() {
 		x := &runWorld{}
@@ -398,9 +431,17 @@ func wholeRun(mode, rate string, maxDur time.Duration, conc int, bodySleep time.
 			// one long constant stage; the run's own deadline ends it mid-stage
 			rs.FileYAML = fmt.Sprintf("scenario: s\nlimits:\n  max-duration: %s\n  concurrency: %d\n  max-iterations: %d\n  ignore-dropped: true\nstages:\n- duration: 5s\n  mode: constant\n  rate: %s\n  jitter: 0\n  distribution: none\n", maxDur, conc, limit, rate)
 		}
+		if usersFirst {
+			rs.FileYAML = fmt.Sprintf("scenario: s\nlimits:\n  max-duration: %s\n  concurrency: %d\n  max-iterations: %d\n  ignore-dropped: true\nstages:\n- duration: 300ms\n  mode: users\n- duration: 300ms\n  mode: constant\n  rate: %s\n  jitter: 0\n  distribution: none\n", maxDur, conc, limit, rate)
+		}
 		rs.ScenarioFn = func(t *f1testing.T) f1testing.RunFn {
+			if usersFirst || cancelAt > 0 {
+				t.Cleanup(func() { vtime.Sleep(600 * time.Millisecond) })
+			}
 			return func(t *f1testing.T) {
 				id, _ := strconv.Atoi(t.Iteration)
+				x.open++
+				defer func() { x.open-- }()
 				if bodySleep > 0 {
 					vtime.Sleep(bodySleep)
 				}
@@ -444,20 +485,34 @@ func wholeRun(mode, rate string, maxDur time.Duration, conc int, bodySleep time.
 				return perTick
 			})
 		}
-		res, err := b.Run.Do(vctx.Background())
+		ctx, cancel := vctx.WithCancel(vctx.Background())
+		defer cancel()
+		if cancelAt > 0 {
+			vrt.GoNamed("caller-cancel", func() {
+				vtime.Sleep(cancelAt)
+				cancel()
+			})
+		}
+		res, err := b.Run.Do(ctx)
 		if err != nil {
 			panic(err)
 		}
 		x.res = res
+		x.openAtReturn = x.open
 	}
 	post := func(o *vrt.Outcome) {
 		classify(o, "C01")
 		if o.Status != vrt.StOK || rw.res == nil {
 			return
 		}
-		for _, ev := range o.Log {
-			if strings.HasPrefix(ev, "display Active tests not completed") {
-				// the statement is about runs that return with all iterations complete
+		var stopClock int64 = -1
+		for li, ev := range o.Log {
+			if stopClock < 0 && (strings.HasPrefix(ev, "display Interrupted") || strings.HasPrefix(ev, "display Max Duration Elapsed") || strings.HasPrefix(ev, "display Max Iterations")) {
+				stopClock = o.LogClock[li]
+			}
+			if strings.HasPrefix(ev, "display Active tests not completed") && (rw.openAtReturn > 0 || stopClock < 0 || o.LogClock[li]-stopClock >= int64(time.Second)) {
+				// the statement is about runs that return with all iterations complete: not about a run that sat
+				// out its completion timeout (1 s here) and took its totals with an iteration still in flight
 				o.Sig = "completion-timeout"
 				return
 			}
@@ -507,6 +562,9 @@ func scenariosFor(tier string) []vrt.Scenario {
 		addRun(2, wholeRun("file", "3/100ms", 310*time.Millisecond, 1, 250*time.Millisecond, 0))
 		addRun(0, wholeRun("constant", "2/100ms", 310*time.Millisecond, 2, 30*time.Millisecond, 0, true))
 		addRun(0, wholeRun("users", "", 310*time.Millisecond, 2, 100*time.Millisecond, 3, true))
+		addRun(0, usersFirst("2/100ms", 5*time.Second, 2, 150*time.Millisecond))
+		addRun(1, interrupted("constant", "2/100ms", 250*time.Millisecond, 2, 150*time.Millisecond))
+		addRun(0, interrupted("users", "", 250*time.Millisecond, 2, 150*time.Millisecond))
 		// lean: one iteration, the progress tick and the end of the run at the same instant; three deviations
 		addRun(2, wholeRun("constant", "1/1s", 1010*time.Millisecond, 1, 0, 0))
 	} else {
@@ -522,6 +580,9 @@ func scenariosFor(tier string) []vrt.Scenario {
 		addRun(2, wholeRun("constant", "3/500ms", 1260*time.Millisecond, 2, 500*time.Millisecond, 0))
 		addRun(1, wholeRun("constant", "2/100ms", 310*time.Millisecond, 2, 30*time.Millisecond, 0, true))
 		addRun(1, wholeRun("users", "", 310*time.Millisecond, 2, 100*time.Millisecond, 3, true))
+		addRun(1, usersFirst("2/100ms", 5*time.Second, 2, 150*time.Millisecond))
+		addRun(2, interrupted("constant", "2/100ms", 250*time.Millisecond, 2, 150*time.Millisecond))
+		addRun(1, interrupted("users", "", 250*time.Millisecond, 2, 150*time.Millisecond))
 	}
 	add := func(b int, snaps int, scripts ...string) {
 		sc := component(scripts, snaps)
